@@ -145,7 +145,7 @@ theorem c07_src_bits_capacity (used length : Nat) :
     Generated.bitsOverflow_sideOk used length ∧
     (Generated.bitsOverflow used length = false ↔ used + length ≤ 1023) ∧
     Generated.bitsOverflow used length = decide (used + length > 1023) := by
-  refine ⟨by simp only [Generated.bitsOverflow_sideOk] <;> src_arith, ?_, ?_⟩
+  refine ⟨by simp only [Generated.bitsOverflow_sideOk]; src_arith, ?_, ?_⟩
   · simp only [Generated.bitsOverflow, decide_eq_false_iff_not]; split <;> simp <;> omega
   · simp only [Generated.bitsOverflow, decide_eq_decide]; split <;> simp <;> omega
 
@@ -157,9 +157,9 @@ theorem c07_src_refs_capacity (refs more : Nat) :
     (Generated.cellRefsOverflow refs more = false ↔ refs + more ≤ 4) ∧
     (Generated.sliceRefsOverflow refs more = false ↔ refs + more ≤ 4) := by
   refine ⟨⟨?_, ?_, ?_⟩, ?_, ?_, ?_⟩
-  · simp only [Generated.refsFull_sideOk] <;> src_arith
-  · simp only [Generated.cellRefsOverflow_sideOk] <;> src_arith
-  · simp only [Generated.sliceRefsOverflow_sideOk] <;> src_arith
+  · simp only [Generated.refsFull_sideOk]; src_arith
+  · simp only [Generated.cellRefsOverflow_sideOk]; src_arith
+  · simp only [Generated.sliceRefsOverflow_sideOk]; src_arith
   · simp only [Generated.refsFull, decide_eq_false_iff_not] <;> omega
   · simp only [Generated.cellRefsOverflow, decide_eq_false_iff_not] <;> omega
   · simp only [Generated.sliceRefsOverflow, decide_eq_false_iff_not] <;> omega
@@ -171,8 +171,8 @@ theorem c07_src_read_bound (remaining length size : Nat) :
     (Generated.bitsUnderflow remaining length = false ↔ length ≤ remaining) ∧
     (Generated.sizeTooLarge size = false ↔ size ≤ 1023) := by
   refine ⟨⟨?_, ?_⟩, ?_, ?_⟩
-  · simp only [Generated.bitsUnderflow_sideOk] <;> src_arith
-  · simp only [Generated.sizeTooLarge_sideOk] <;> src_arith
+  · simp only [Generated.bitsUnderflow_sideOk]; src_arith
+  · simp only [Generated.sizeTooLarge_sideOk]; src_arith
   · simp only [Generated.bitsUnderflow, decide_eq_false_iff_not]; split <;> simp <;> omega
   · simp only [Generated.sizeTooLarge, decide_eq_false_iff_not] <;> omega
 
